@@ -36,6 +36,28 @@ func genSqrt(r *hx.RNG, l hx.Limits) *opCase {
 	}
 	shape := r.Intn(100)
 	switch {
+	case shape < 8: // x a hair below / above a power of ten: the root crosses a decade while it is being corrected
+		m := int64(r.Range(1, 60))
+		x := new(big.Int).Set(oracle.Pow10(m))
+		d := big.NewInt(int64(r.Range(1, 9)))
+		if r.Chance(30) {
+			d = hx.CoefOf(r.Digits(r.Range(1, int(m))))
+		}
+		k.class = "just-above-power-of-ten"
+		if r.Chance(65) {
+			x.Sub(x, d)
+			k.class = "just-below-power-of-ten"
+		} else {
+			x.Add(x, d)
+		}
+		if x.Sign() <= 0 {
+			x.SetInt64(99)
+		}
+		k.x = oracle.Val{Form: oracle.Finite, Coef: x, Exp: int64(r.Range(-80, 20))}
+		k.p = int64(r.Range(1, 30))
+		if r.Chance(25) {
+			k.p = int64(r.Range(1, int(m)))
+		}
 	case shape < 30: // perfect squares and their neighbours
 		n := r.Range(1, maxLen/2)
 		s := hx.CoefOf(r.Digits(n))
